@@ -15,12 +15,16 @@ def run(ctx):
                 "over broker.LoopbackTransport, shut down (5 ways) after every number of eventual-send generations while calls, "
                 "answers and callbacks carrying references are in flight in both directions; three parties: the gifter forgets its "
                 "proxy after every number of delivery steps of a third-party introduction (3 gift shapes x 3 link priorities), the "
-                "owner holding the object only through its tables")
+                "owner holding the object only through its tables; and message-granular three-party histories on four real Tubs "
+                "(fixed witnesses + random) compared after every action with the model lib/Gifts.v (gift table, live proxies of "
+                "giver and recipient)")
     ctx.assumptions = [
         "CPython collects a proxy on the last `del` (+gc.collect()): DropProxy is an explicit action; modelled, not verified",
         "FIFO byte streams both ways, one queue item per top-level banana object (Broker.send is wrapped on the two instances "
         "to delimit messages); Twisted Deferred/eventual-queue FIFO order is relied upon (HandleRefLost pops the oldest)",
-        "one connection, one direction (O exports, H imports); gifts (their-reference) are outside the model",
+        "two-party model: one connection, one direction (O exports, H imports); three-party model lib/Gifts.v: the giver's gift table, "
+        "the recipient's acknowledgement and the owners' name tables, with the owner<->giver / owner<->recipient connections abstracted "
+        "by the conclusions of the two-party theorems (pessimistic: the owner's object dies the moment the giver's last proxy dies)",
         "the serialisation of calls/answers (banana, slicers) is exercised by the histories but not modelled",
     ]
     ok, log = ctx.coq_build(["props/C09.vo"])
@@ -34,9 +38,11 @@ def run(ctx):
     c09_impl.gift_drops(ctx)
     model_ok = ok
     if not ok:
-        model_ok, _ = ctx.coq_build(["lib/Refs.vo"])
+        model_ok, _ = ctx.coq_build(["lib/Refs.vo", "lib/Gifts.vo"])
     if model_ok:
         R.correspond(ctx, "C09", results)
+    from harness import gifts_impl
+    gifts_impl.check_gifts(ctx, "C09", model_ok)
     # a failing input that is a listed known finding does not explain a broken proof
     known = common.load_known()
     fresh = [f for f in ctx.failures[before:] if not (f["has_input"] and known.get(("C09", f["sig"]), {}).get("status") == "known")]
